@@ -97,7 +97,11 @@ def request(apps, kind, ch, payload, want_json):
         the_app = crit
     if getattr(request, 'use_hooked', False) and kind in ('404', '405', '500') and ch != 'path':
         the_app = app.hooked
-    if ch == 'path':
+    if ch == 'path0':
+        # the marked text IS the first segment of the path ('/zq://[...': reads like a URL with a scheme and a broken host)
+        path = '/' + marked
+        ch = 'path'
+    elif ch == 'path':
         if kind == '400p':
             marked = 'zq' + payload + '\xff' + 'qz'      # an undecodable byte inside the reflected text
         path = path + '/' + marked
@@ -220,6 +224,13 @@ def run(chk):
                     recs.append(request(apps, kind, ch, pl, wj))
                     chk.count(1, ('hooked', kind, ch, pl, wj))
     request.use_hooked = False
+    # JSON clients asking for paths that read like URLs of their own: whatever the page generator makes of the URL, the answer
+    # to a JSON client is a JSON document
+    for pl in ['://[', '://[<b>', '://[::1', ':<i>//[x', '://["x"]<u>[']:
+        for kind in ('404', '405', '500'):
+            if kind == '404':
+                recs.append(request(apps, kind, 'path0', pl, True))
+                chk.count(1, ('url-like', kind, pl))
     # applications that ran with debug on for a while and were then switched off (both ways of doing that): debug is off NOW
     for how in ('setup', 'attr'):
         apps_d = make_app(was_debug=how)
